@@ -10,6 +10,7 @@ NOTE = ("Trusted: numpy's generic machinery behaves on object arrays as on float
         "Python bodies (witness concordance replays solver witnesses on the JIT code); contract stubs / UF lemma "
         "instances named in the evidence are true of the real routines; z3/cvc5. Float rounding is outside the claim.")
 CLAIMED = {
+    'C19': ('4/C19', 'symbolic execution of SimpleClouds (inside the real transmission path_integral), FlatMie and LeeMie prepare_each on symbolic pressure levels/bounds + z3'),
     'C01': ('4/C01', 'symbolic execution of TransmissionModel.path_integral/compute_absorption/compute_path_length_old and the contribute kernels on a directly constructed symbolic atmosphere + z3/nlsat with UF exp/sqrt'),
     'C12': ('4/C12', 'symbolic execution of Isothermal/NPoint/Rodgers2000/TemperatureArray/Guillot2010 on symbolic pressures and control values + z3 (interp/interp1d/expn contract stubs)'),
     'C11': ('4/C11', 'symbolic execution of SimplePressureProfile/ArrayPressureProfile, Planet.calculate_scale_properties and a real TransmissionModel.initialize_profiles/generate_profiles + z3 with UF ln/log10/exp10/sqrt'),
